@@ -35,16 +35,16 @@ type sActor struct {
 }
 
 type scheduler struct {
-	mu        sync.Mutex
-	cond      *sync.Cond
-	conn      *gws.Conn
-	actors    map[int]*sActor
-	byGoid    map[int64]*sActor
-	pendingB  []*sActor // broadcast actors whose queue task has not reached b.start yet
-	reader    *sActor
-	free      bool // pass-through mode: nothing parks any more
-	bcUnder   bool // Facts.bcClosedCheckUnderLock
-	autoPass  map[string]bool
+	mu       sync.Mutex
+	cond     *sync.Cond
+	conn     *gws.Conn
+	actors   map[int]*sActor
+	byGoid   map[int64]*sActor
+	pendingB []*sActor // broadcast actors whose queue task has not reached b.start yet
+	reader   *sActor
+	free     bool // pass-through mode: nothing parks any more
+	bcUnder  bool // Facts.bcClosedCheckUnderLock
+	autoPass map[string]bool
 }
 
 func goid() int64 {
